@@ -268,9 +268,9 @@ class CombinatorialSpecification(
             assert (
                 comb_class.is_empty()
             ), f"rule not in the spec and not empty\n{comb_class}"
-            empty_strat = EmptyStrategy[
+            empty_strat: EmptyStrategy[
                 CombinatorialClassType, CombinatorialObjectType
-            ]()
+            ] = EmptyStrategy()
             self.rules_dict[comb_class] = empty_strat(comb_class)
         return self.rules_dict[comb_class]
 
